@@ -403,3 +403,38 @@ package stack
 //@ lemma [C13] firstBucketFirst(a *Bucket, b *Bucket)
 //@   requires a.First && !b.First
 //@   ensures BucketLt(a, b) && !BucketLt(b, a)
+
+// ---- stack.go: merge (C12, C14) -------------------------------------------------
+//@ pred CallKeyKept(k *Call, c *Call) = k.Line == c.Line && k.Func.Complete == c.Func.Complete && k.Func.IsPkgMain == c.Func.IsPkgMain && k.RemoteSrcPath == c.RemoteSrcPath && k.DirSrc == c.DirSrc && k.Location == c.Location && k.SrcName == c.SrcName && k.Func.Name == c.Func.Name && k.Func.ImportPath == c.Func.ImportPath && k.Func.DirName == c.Func.DirName && k.Func.IsExported == c.Func.IsExported && k.LocalSrcPath == c.LocalSrcPath && k.RelSrcPath == c.RelSrcPath && k.ImportPath == c.ImportPath
+
+//@ func (*Args).merge
+//@   requires a != nil && r != nil && SimVals(a.Values, r.Values, AnyValue)
+//@   modifies nothing
+//@   ensures [argsMergeShape C12] len(result.Values) == len(a.Values) && result.Elided == a.Elided && fresh(result.Values) && len(result.Processed) == 0
+//@   loop 0: invariant -1 <= rangeindex && rangeindex < len(a.Values) && a != nil && r != nil && fresh(out.Values) && len(out.Values) == len(a.Values) && out.Elided == a.Elided && len(out.Processed) == 0 && len(a.Values) == len(r.Values)
+//@   loop 0: decreases len(a.Values) - rangeindex
+
+//@ func (*Call).merge
+//@   requires c != nil && r != nil && SimVals(c.Args.Values, r.Args.Values, AnyValue)
+//@   modifies nothing
+//@   ensures [callMergeKeepsFrame C12] result.Line == c.Line && result.Func.Complete == c.Func.Complete && result.Func.IsPkgMain == c.Func.IsPkgMain && result.RemoteSrcPath == c.RemoteSrcPath && result.DirSrc == c.DirSrc && result.Location == c.Location && result.SrcName == c.SrcName && result.Func.Name == c.Func.Name && result.Func.ImportPath == c.Func.ImportPath && result.Func.DirName == c.Func.DirName && result.Func.IsExported == c.Func.IsExported && result.LocalSrcPath == c.LocalSrcPath && result.RelSrcPath == c.RelSrcPath && result.ImportPath == c.ImportPath
+//@   ensures [callMergeArgsShape C12] len(result.Args.Values) == len(c.Args.Values) && result.Args.Elided == c.Args.Elided && fresh(result.Args.Values)
+
+//@ func (*Stack).merge
+//@   requires s != nil && r != nil && SimStack(s, r, AnyValue)
+//@   modifies nothing
+//@   ensures [stackMergeShape C12] result != nil && fresh(result) && fresh(result.Calls) && len(result.Calls) == len(s.Calls) && result.Elided == s.Elided
+//@   ensures [stackMergeKeepsFrames C12] forall i :: 0 <= i && i < len(s.Calls) ==> CallKeyKept(&result.Calls[i], &s.Calls[i])
+//@   loop 0: invariant -1 <= rangeindex && rangeindex < len(s.Calls) && s != nil && r != nil && out != nil && fresh(out) && fresh(out.Calls) && len(out.Calls) == len(s.Calls) && out.Elided == s.Elided && len(s.Calls) == len(r.Calls)
+//@   loop 0: invariant forall j :: 0 <= j && j <= rangeindex ==> CallKeyKept(&out.Calls[j], &s.Calls[j])
+//@   loop 0: decreases len(s.Calls) - rangeindex
+
+//@ func (*Signature).merge
+//@   requires s != nil && r != nil && SimStack(&s.Stack, &r.Stack, AnyValue)
+//@   modifies nothing
+//@   ensures [sigMergeFresh C14] result != nil && fresh(result)
+//@   ensures [sigMergeKeepsState C12] result.State == s.State && result.CreatedBy.Calls == s.CreatedBy.Calls && result.CreatedBy.Elided == s.CreatedBy.Elided
+//@   ensures [sigMergeSleepRange C12] result.SleepMin == (r.SleepMin < s.SleepMin ? r.SleepMin : s.SleepMin) && result.SleepMax == (r.SleepMax > s.SleepMax ? r.SleepMax : s.SleepMax)
+//@   ensures [sigMergeLocked C12] result.Locked <==> (s.Locked || r.Locked)
+//@   ensures [sigMergeStackShape C12] fresh(result.Stack.Calls) && len(result.Stack.Calls) == len(s.Stack.Calls) && result.Stack.Elided == s.Stack.Elided
+//@   ensures [sigMergeKeepsFrames C12] forall i :: 0 <= i && i < len(s.Stack.Calls) ==> CallKeyKept(&result.Stack.Calls[i], &s.Stack.Calls[i])
